@@ -1359,12 +1359,15 @@ func genH(t *testing.T, c *vlib.Collector, id *int) {
 	for i := 0; i < nConv; i++ {
 		sessions = append(sessions, sessionCfg{Mode: "conv", Steps: vlib.Scale(8, 12), Specs: nodeSpecs, FocusK: hKinds, SplitPct: 40})
 	}
-	// last: the scripted reproducer of a known finding (it corrupts a process-wide default, restored afterwards)
+	// last: the scripted reproducer of the former finding C01-envoyfilter-merge-mutates-shared-default (repaired in /repo
+	// f7db64b: pkg/proto/merge no longer merges into shared well-known-type values in place). It is an ordinary session now:
+	// if the corruption returns it is a VIOLATION. The process-wide default is still restored afterwards so that a
+	// recurrence cannot poison later runs in the same process.
 	sessions = append(sessions, sessionCfg{Mode: "h", Steps: len(sharedDefaultScript), Specs: nodeSpecs, World: sharedDefaultWorld,
-		Script: sharedDefaultScript, Finding: "C01-envoyfilter-merge-mutates-shared-default"})
+		Script: sharedDefaultScript})
 	defaultBodySize := istio_route.DefaultMaxDirectResponseBodySizeBytes.GetValue()
 	defer func() {
-		c.Extra["finding.shared_default_after_scripted_envoyfilter"] = istio_route.DefaultMaxDirectResponseBodySizeBytes.GetValue()
+		c.Extra["shared_default_after_scripted_envoyfilter"] = istio_route.DefaultMaxDirectResponseBodySizeBytes.GetValue()
 		istio_route.DefaultMaxDirectResponseBodySizeBytes.Value = defaultBodySize
 	}()
 	t0 := time.Now()
